@@ -26,6 +26,13 @@ pub struct Node {
     pub attrs: Vec<(String, String)>,
     pub events: Vec<EvSpec>,
     pub data: Option<Bytes>,
+    /// (reply handlers) hand the data found in the Reply on unchanged instead of `data`, when there is any
+    #[serde(default)]
+    pub echo_reply_data: bool,
+    /// the message that carries this script is sent with a zero-length body (where the transport allows):
+    /// no entry point can decode it, the call fails before any contract code runs
+    #[serde(default)]
+    pub empty_msg: bool,
     pub subs: Vec<Sub>,
 }
 
@@ -60,7 +67,13 @@ pub enum WriteOp {
     /// three operations); `rewrite_only`: just write the current value again
     Restore { k: KeySpec, rewrite_only: bool },
     /// `n` keys "bulk/<tag>/<i>" (big-endian i) set in one go: contracts with many entries
-    Bulk { tag: u8, n: u16 },
+    Bulk {
+        tag: u8,
+        n: u16,
+        /// goes into every value, so that a second bulk write of the same keys changes them
+        #[serde(default)]
+        salt: u8,
+    },
     /// the same keys removed again
     BulkRemove { tag: u8, n: u16 },
 }
